@@ -307,7 +307,7 @@ class Evaluator:
                 for fi, fv in sv[3]:
                     if fi == e['i']:
                         return (fv, t)
-            return (('field', sv, e['i'], e.get('fname')), t)
+            return (('field', sv, e['i'], self.facts.canon_field(e.get('lty'), e.get('fname'))), t)
         if k == 'cast':
             v, t = self.ev(e['e'], ctx)
             return (('cast', e['ty'], strip(v), e.get('from')), t)
